@@ -291,6 +291,9 @@ func Sockaddr(t *rapid.T) (kenc.Rec, map[string]string) {
 // property itself says placeholders are dropped).
 func Execve(t *rapid.T, max int) kenc.Rec {
 	n := rapid.IntRange(1, max).Draw(t, "argc")
+	if rapid.IntRange(0, 19).Draw(t, "manyargs") == 0 {
+		n = rapid.SampledFrom([]int{65, 64, 101, 129, 257, 1025, 1001}).Draw(t, "argcmany") // three- and four-digit argument keys
+	}
 	var args [][]byte
 	for i := 0; i < n; i++ {
 		v := Val(t, "arg", ValOpts{})
